@@ -67,17 +67,23 @@ def body(c):
     # aborts the process), on the main thread and on a thread with the default 2 MiB stack: build, finalise, encode, drop
     import subprocess
     deep = {}
-    for shape in ("injl", "take", "comp", "unify"):
-        for depth in ((1000, 20000, 400000) if q else (1000, 5000, 20000, 100000, 400000, 1000000)):
+    # ("share": p_k = pair p_(k-1) p_(k-1) over a witness -- a type shared to depth k, whose finalisation must stay linear in k)
+    gave_up = False
+    for shape in ("share", "injl", "take", "comp", "unify"):
+        for depth in ((24, 64) if shape == "share" else (1000, 20000, 400000) if q else (1000, 5000, 20000, 100000, 400000, 1000000)):
             if shape == "unify" and depth > 100000:
                 continue
+            limit = 120 if shape == "share" else 900
+            if gave_up:
+                break
             for place in ("main", "thread"):
                 c.evaluations += 1
                 try:
-                    pr = subprocess.run([VH, "c20", "deepbuild", shape, str(depth), place], stdout=subprocess.PIPE, stderr=subprocess.PIPE, timeout=900)
+                    pr = subprocess.run([VH, "c20", "deepbuild", shape, str(depth), place], stdout=subprocess.PIPE, stderr=subprocess.PIPE, timeout=limit)
                 except subprocess.TimeoutExpired:
-                    c.report("c04:deep-timeout", "building %s nested %d deep on the %s thread did not finish in 900 s" % (shape, depth, place), {"shape": shape, "depth": depth, "place": place})
-                    continue
+                    c.report("c04:deep-timeout", "building and finalising %s nested %d deep on the %s thread did not finish in %d s" % (shape, depth, place, limit), {"shape": shape, "depth": depth, "place": place})
+                    gave_up = True          # one non-terminating construction is enough; the remaining shapes would each wait for their limit
+                    break
                 if pr.returncode == 0:
                     deep["%s %d %s" % (shape, depth, place)] = "ok"
                     c.traces += 1
